@@ -549,7 +549,10 @@ func ruleFollowerWriters(w *core.World, r *core.Report) {
 			if cleared {
 				return
 			}
-			joins := p.Holds(token.LEQ, isLeft, isMine) || p.Holds(token.GEQ, isMine, isLeft)
+			// joins: the leader's data starts exactly where the follower's ends. "At or before" is not enough:
+			// data that starts inside the follower's range comes from a leader that switched to another
+			// history, and the old bytes would stay stored under the new id (W22)
+			joins := p.Holds(token.EQL, isLeft, isMine) || p.Holds(token.EQL, isMine, isLeft)
 			initial := pathAssumed(p, func(v ssa.Value) bool {
 				c, ok := core.Unwrap(v).(*ssa.Call)
 				return ok && strings.HasSuffix(core.ResolveCall(c).Name, "StartPoint).IsInitial")
@@ -564,7 +567,7 @@ func ruleFollowerWriters(w *core.World, r *core.Report) {
 						}
 					}
 				}
-				bad = "the log writer is created without clearing the cache on a path that did not establish that the leader's data starts at or before the follower's newest offset (or that the follower is empty): a gap between the kept data and the new data would be stored under one id"
+				bad = "the log writer is created without clearing the cache on a path that did not establish that the leader's data starts exactly at the follower's newest offset (or that the follower is empty): a hole, or bytes of another replication history the leader has left, would be stored under one id"
 			}
 		})
 		r.Check(bad == "" && k > 0, "aofSync/clear-before-gap", nw.Pos(), "%s", bad)
